@@ -154,7 +154,31 @@ fn n(e: &'static str, k: usize) -> V {
     V::N(e, k)
 }
 
+/// one UNLIMITED call (limit 0) on a computation of well over 10 000 contractions
+fn run_unlimited(out: &mut Out, prop: &str, name: &str, cterm: &Term, args: &[V], expected: &V, orders: &[Order]) {
+    let mut t = cterm.clone();
+    for a in args {
+        t = app(t, enc(a));
+    }
+    for o in orders {
+        let mut u = t.clone();
+        eprintln!("CUR op0 {} {} {}", name, order_name(*o), args.iter().map(vs).collect::<Vec<_>>().join(" "));
+        let (res, c) = match catch_unwind(AssertUnwindSafe(|| u.reduce(*o, 0))) {
+            Ok(c) => (ser(&u), c),
+            Err(_) => ("PANIC".to_string(), 0),
+        };
+        writeln!(out.w, "op\t{}\t{}\t{}\t{}\t{}\teq\t{}\t{}", prop, name, order_name(*o),
+                 args.iter().map(vs).collect::<Vec<_>>().join(" "), vs(expected), res, c).unwrap();
+    }
+}
+
 fn suite_church(out: &mut Out, thorough: bool) {
+    {
+        let c = |k| n("church", k);
+        run_unlimited(out, "C13", "num_church_fac", &nc::fac(), &[c(7)], &c(5040), &[NOR, HNO]);
+        run_unlimited(out, "C13", "num_church_pow", &nc::pow(), &[c(2), c(13)], &c(8192), &[NOR, HNO, HAP]);
+        run_unlimited(out, "C13", "num_church_rem", &nc::rem(), &[c(24), c(1)], &c(0), &[NOR, HNO, HAP]);
+    }
     let all = [NOR, HNO, HAP, APP];
     let noapp = [NOR, HNO, HAP];
     let m = if thorough { 7 } else { 5 };
